@@ -613,17 +613,14 @@ SIGNED_READS = ('parse_ssh_mpint',)
 UNSIGNED_READS = ('parse_mpint', 'parse_numeric')
 
 
-def key_sizes_defined(ctx, report, RULE='C14.R15'):
-    """Rendering a key renders its size, and the size of an RSA / DSA key is the logarithm of its modulus / prime (external.json:
-    key_size): a parsed key whose modulus or prime is not positive makes every rendering of the object raise ValueError.  Every
-    place where a parse function builds ``PublicKeyParamsRsa`` / ``PublicKeyParamsDsa`` from a number it has read is looked at:
-    the number is refused (InvalidValue) before, when it is zero - and when it is negative, for reads that can give a negative
-    number (SSH mpints are signed, the fixed length integers of DNSKEY are not)."""
+def key_size_sites_by_syntax(report, RULE, owner, func, skip):
+    """the same obligation read off the statements of one function (used where the abstract run does not reach the function: a
+    dispatch through ``getattr`` on a name table): keyword or first positional argument of the parameter class, the read that
+    filled it, a dominating ``if`` that raises InvalidValue.  ``skip``: (construct, key) pairs already decided on the run"""
     from ..astutil import inline_locals
-    report.rule(RULE, 'the modulus / prime of a parsed RSA / DSA key is refused unless it is positive (its logarithm is the key size every rendering shows)')
     n = 0
-    for c in ctx.model.repo_classes():
-        for f in c.methods.values():
+    for c in [owner]:
+        for f in [func]:
             for call in ast.walk(f.node):
                 if not (isinstance(call, ast.Call) and ast.unparse(call.func).split('.')[-1] in KEY_SIZE_SOURCE):
                     continue
@@ -652,6 +649,8 @@ def key_sizes_defined(ctx, report, RULE='C14.R15'):
                             reads.add(r.func.attr)
                 if not reads:
                     continue
+                if (f.construct, key) in skip:
+                    continue
                 n += 1
                 report.touch(f)
                 signed = bool(reads & set(SIGNED_READS))
@@ -675,8 +674,112 @@ def key_sizes_defined(ctx, report, RULE='C14.R15'):
                                '%s is read with %s and becomes the %s of the key without a test: for %s the size of the key (log2 of it) does not exist, and '
                                'every rendering of the parsed object - JSON, Markdown, known_hosts - raises ValueError' % (
                                    subject, sorted(reads)[0], kw, 'zero or a negative number' if signed else 'zero'))
+    return n
+
+
+def key_sizes_defined(ctx, report, RULE='C14.R15'):
+    """Rendering a key renders its size, and the size of an RSA / DSA key is the logarithm of its modulus / prime (external.json:
+    key_size): a parsed key whose modulus or prime is not positive makes every rendering of the object raise ValueError.  In the
+    abstract run of every parser (keyword dictionaries, helper methods and name tables resolved) every ``PublicKeyParamsRsa`` /
+    ``PublicKeyParamsDsa`` that receives a number read from the input is looked at: a branch of the run refuses that number
+    (InvalidValue) when it is zero - and when it is negative, for reads that can give a negative number (SSH mpints are signed,
+    the fixed length integers of DNSKEY are not)."""
+    from ..core import representatives
+    from ..values import ObjV, Sym
+    report.rule(RULE, 'the modulus / prime of a parsed RSA / DSA key is refused unless it is positive (its logarithm is the key size every rendering shows)')
+    seen = set()
+    n = 0
+
+    def key_objects(v, out, depth=0):
+        if depth > 10:
+            return
+        if isinstance(v, ObjV):
+            if getattr(v.cls, 'name', None) in KEY_SIZE_SOURCE:
+                out.append(v)
+            for a in (v.ctor_args or {}).values():
+                key_objects(a, out, depth + 1)
+        elif isinstance(v, Sym):
+            for a in v.args:
+                key_objects(a, out, depth + 1)
+        elif isinstance(v, (tuple, list)):
+            for a in v:
+                key_objects(a, out, depth + 1)
+    mentions = {}
+
+    def builds_keys(k):
+        if k not in mentions:
+            mentions[k] = any(isinstance(x, ast.Name) and x.id in KEY_SIZE_SOURCE for f in k.methods.values() for x in ast.walk(f.node))
+        return mentions[k]
+    for c in ctx.model.concrete_parsables():
+        # every receiver class whose chain names one of the parameter classes (two host key classes can share one ``_parse``)
+        if not any(isinstance(k, ClassInfo) and builds_keys(k) for k in c.mro):
+            continue
+        try:
+            res = ctx.canon.layout(c, 'parse').result
+        except Exception:      # pylint: disable=broad-except
+            continue
+        objs = []
+        key_objects(res.value, objs)
+        if not objs:
+            continue
+        nodes = list(walk(res.block))
+        for o in objs:
+            kw, pos = KEY_SIZE_SOURCE[o.cls.name]
+            v = (o.ctor_args or {}).get(kw)
+            if not isinstance(v, FieldV):
+                continue
+            op = next((x for x in nodes if isinstance(x, Op) and x.side == 'parse' and x.key == v.key and x.target is v.parser), None)
+            if op is None or op.prim not in SIGNED_READS + UNSIGNED_READS:
+                continue
+            where = (getattr(op.func, 'construct', None) or c.construct, v.key)
+            if where in seen:
+                continue
+            seen.add(where)
+            n += 1
+            if op.func is not None:
+                report.touch(op.func)
+            signed = op.prim in SIGNED_READS
+            guarded = False
+            from ..trace import Alt, Raise
+            for x in nodes:
+                if not (isinstance(x, Alt) and any(isinstance(y, Raise) and 'InvalidValue' in show_exc(y) for y in x.then)):
+                    continue
+                t = x.cond
+                if not isinstance(t, Sym):
+                    continue
+                same = lambda a: isinstance(a, FieldV) and a.key == v.key and a.parser is v.parser
+                if t.op == 'not' and len(t.args) == 1 and same(t.args[0]):
+                    guarded = guarded or not signed
+                if t.op == 'cmp' and len(t.args) == 3 and same(t.args[1]) and isinstance(t.args[2], int) and not isinstance(t.args[2], bool):
+                    o_, k = t.args[0], t.args[2]
+                    if (o_ == '<=' and k == 0) or (o_ == '<' and k == 1):
+                        guarded = True
+                    if o_ == '==' and k == 0:
+                        guarded = guarded or not signed
+                if t.op == 'cmp' and len(t.args) == 3 and same(t.args[2]) and isinstance(t.args[1], int) and not isinstance(t.args[1], bool):
+                    o_, k = t.args[0], t.args[1]
+                    if (o_ == '>=' and k == 0) or (o_ == '>' and k == 1):
+                        guarded = True
+            if not guarded:
+                report.add(RULE, '%s@key-size[%s]' % (where[0], v.key),
+                           'the number read as %r with %s becomes the %s of the key without a test: for %s the size of the key (log2 of it) does not '
+                           'exist, and every rendering of the parsed object - JSON, Markdown, known_hosts - raises ValueError' % (
+                               v.key, op.prim, kw, 'zero or a negative number' if signed else 'zero'))
+    # functions that name a parameter class and were not reached by any abstract run: decided on their own statements
+    for k in ctx.model.repo_classes():
+        for f in k.methods.values():
+            if any(isinstance(x, ast.Name) and x.id in KEY_SIZE_SOURCE for x in ast.walk(f.node)):
+                n += key_size_sites_by_syntax(report, RULE, k, f, seen)
     report.count(RULE, n)
     report.floor(RULE, 4, 'RSA / DSA keys built from parsed numbers')
+
+
+def show_exc(r):
+    from ..values import show
+    try:
+        return show(r.exc) if not isinstance(r.exc, str) else r.exc
+    except Exception:      # pylint: disable=broad-except
+        return str(r.exc)
 
 
 def finite_numbers(ctx, report, RULE='C14.R10'):
